@@ -175,8 +175,10 @@ def run_script(methods_by_name: dict, pair_factory, server_proto, impl, client_p
                             obs.append(["result", state["nlogs"]])
                         except CallbackBoom:
                             obs.append(["callback_raised"])
-                        except RpcError as e:
-                            if e.error_type == "TransportError":
+                        except Exception as e:  # noqa: BLE001
+                            if not isinstance(e, RpcError):
+                                obs.append(["client_exception", type(e).__name__])
+                            elif e.error_type == "TransportError":
                                 obs.append(["transport_error"])
                             else:
                                 if m["known"] and not m["badp"] and not getattr(client_proto, "protocol_version", None):
@@ -187,6 +189,9 @@ def run_script(methods_by_name: dict, pair_factory, server_proto, impl, client_p
                         sess = getattr(px, m["n"])(x=arg)
                     except RpcError as e:
                         obs.append(["transport_error"] if e.error_type == "TransportError" else ["err", 0])
+                        continue
+                    except Exception as e:  # noqa: BLE001 - anything else the client lets escape
+                        obs.append(["client_exception", type(e).__name__])
                         continue
                     if m["hdr"]:
                         h = sess.header
@@ -212,6 +217,9 @@ def run_script(methods_by_name: dict, pair_factory, server_proto, impl, client_p
                                 obs.append(["transport_error"])
                             else:
                                 obs.append(["err", 0])
+                            return True
+                        except Exception as e:  # noqa: BLE001
+                            obs.append(["client_exception", type(e).__name__])
                             return True
                         obs.extend(state["pending"])
                         v = ab.batch.column("v")[0].as_py()
@@ -239,6 +247,8 @@ def run_script(methods_by_name: dict, pair_factory, server_proto, impl, client_p
                     if not ended:
                         state["quiet"] = True
                         sess.close()
+                except Exception as e:  # noqa: BLE001 - e.g. close()/cancel() letting something escape
+                    obs.append(["client_exception", type(e).__name__])
                 finally:
                     own.append(state["own"])
 
@@ -247,16 +257,15 @@ def run_script(methods_by_name: dict, pair_factory, server_proto, impl, client_p
     th.join(timeout)
     hung = th.is_alive()
     if not hung:
-        sth.join(2.0)          # the client closed its side: the serve loop must end by itself (EOF)
+        sth.join(0.5)          # the client closed its side: the serve loop must end by itself (EOF)
     died_snapshot = list(died)
     server_stuck = (not hung) and sth.is_alive()
-    try:
-        ct.close()
-    except Exception:  # noqa: BLE001
-        pass
-    try:
-        st.close()
-    except Exception:  # noqa: BLE001
-        pass
+    if not hung and not server_stuck:
+        # (closing a transport another thread is blocked on would block on the buffer lock: leak it instead)
+        for t in (ct, st):
+            try:
+                t.close()
+            except Exception:  # noqa: BLE001
+                pass
     return {"obs": obs, "own": own, "hung": hung, "server_died": died_snapshot, "server_stuck": server_stuck,
             "server_log": list(server_log)}
